@@ -1,0 +1,6 @@
+//go:build !verif
+
+package loader
+
+// vhook is a no-op unless the package is built with the "verif" build tag.
+func vhook(ev string, args ...interface{}) {}
